@@ -187,7 +187,15 @@ def _run_one(part, case, ctx, known, session_excl):
     """Run check on one case. Returns None or a Violation that is not excluded."""
     ctx.begin()
     try:
-        part.check(case, ctx)
+        try:
+            part.check(case, ctx)
+        except Violation:
+            raise
+        except Exception as e:  # noqa: B902
+            v = _violation_with_unprintable_message(e)
+            if v is None:
+                raise
+            raise v from None
     except Violation as v:
         if v.sig in known:
             ctx.excluded_known[v.sig] += 1
@@ -198,6 +206,36 @@ def _run_one(part, case, ctx, known, session_excl):
             return None
         return v
     ctx.end(case, part.name)
+    return None
+
+
+def _violation_with_unprintable_message(exc):
+    """A check decided to raise Violation(...) but building its MESSAGE failed inside flow.record (repr()/str() of a
+    value the changed code left in a broken state, e.g. a naive timestamp of year 1 going through the display zone).
+    The verdict stands; only the text is lost. Recognised by the traceback: the innermost /verif/props frame sits in a
+    `raise Violation(` statement and the frames below it belong to the repository."""
+    import linecache
+    import re
+
+    tb = exc.__traceback__
+    frames = []
+    while tb is not None:
+        frames.append((tb.tb_frame.f_code.co_filename, tb.tb_lineno))
+        tb = tb.tb_next
+    idx = [i for i, (fn, _) in enumerate(frames) if fn.startswith(os.path.join(VERIF, "props") + os.sep)]
+    if not idx or idx[-1] == len(frames) - 1:
+        return None
+    if not all(fn.startswith(REPO + os.sep) or "/lib/python" in fn for fn, _ in frames[idx[-1] + 1:]):
+        return None
+    fn, ln = frames[idx[-1]]
+    text = ""
+    for k in range(ln, max(0, ln - 8), -1):
+        text = linecache.getline(fn, k) + text
+        if "raise Violation(" in linecache.getline(fn, k):
+            m = re.search(r'raise Violation\(\s*(?:[A-Za-z_.]+\s*\+\s*)?"([^"]+)"', text)
+            sig = "unprintable-violation/%s" % (m.group(1).strip("/") if m else "%s:%d" % (os.path.basename(fn), k))
+            return Violation(sig, "the check at %s:%d found a violation, but its message could not be formatted: %s: %.300s"
+                             % (os.path.basename(fn), k, type(exc).__name__, exc))
     return None
 
 
